@@ -959,9 +959,13 @@ func (tb *TermBuilder) call(ctx *Ctx, c *ssa.Call, extract int) *Term {
 	case "neogointernal.Opcode2", "neogointernal.Opcode1", "neogointernal.Opcode1NoReturn", "neogointernal.Opcode2NoReturn", "neogointernal.Opcode3":
 		return tb.mk("opcode", "", tb.inst(ctx, c, 0), args...)
 	}
-	if name == "convert.ToBytes" && len(args) == 1 && len(com.Args) == 1 && isInteger(com.Args[0].Type()) {
-		// same conversion as any(x).([]byte): the variable-length VM encoding of an integer
-		return tb.mk("varint", "", 0, args[0])
+	if name == "convert.ToBytes" && len(args) == 1 {
+		if st := tb.staticType(ctx, com.Args[0]); st != nil && isInteger(st) {
+			// same conversion as any(x).([]byte): the variable-length VM encoding of an integer
+			return tb.mk("varint", "", 0, args[0])
+		}
+	}
+	if false {
 	}
 	if purePrims[name] {
 		return tb.mk("call", name, 0, args...)
@@ -1915,4 +1919,68 @@ func isPureFn(fn *ssa.Function, depth int) bool {
 		pureFnCache[fn] = 0
 	}
 	return res
+}
+
+// editedTerm: the term of byte-slice value v as seen at instruction `at`,
+// taking into account in-place stores of single bytes at constant indexes
+// (key[0] = 'r') that dominate `at`.
+func (tb *TermBuilder) editedTerm(ctx *Ctx, v ssa.Value, at ssa.Instruction) *Term {
+	t := tb.Term(ctx, v)
+	rctx, rv := tb.resolveParam(ctx, v)
+	if rctx != ctx {
+		return t // edits in another frame are not tracked
+	}
+	rv = stripConv(rv)
+	// append(base, x...): edits of the base made before the append carry over
+	if c, ok := rv.(*ssa.Call); ok {
+		if b, isB := c.Common().Value.(*ssa.Builtin); isB && b.Name() == "append" && len(c.Common().Args) == 2 && isByteSliceOrString(c.Common().Args[0].Type()) {
+			base := tb.editedTerm(ctx, c.Common().Args[0], c)
+			return tb.cat(base, tb.Term(ctx, c.Common().Args[1]))
+		}
+	}
+	refs := rv.Referrers()
+	if refs == nil {
+		return t
+	}
+	for _, r := range *refs {
+		ia, ok := r.(*ssa.IndexAddr)
+		if !ok || ia.X != rv {
+			continue
+		}
+		ic, isC := ia.Index.(*ssa.Const)
+		if !isC || ia.Referrers() == nil {
+			continue
+		}
+		idx, _ := constant.Int64Val(ic.Value)
+		for _, r2 := range *ia.Referrers() {
+			st, isSt := r2.(*ssa.Store)
+			if !isSt || st.Addr != ia {
+				continue
+			}
+			// the store must dominate the use
+			dom := false
+			if st.Block() == at.Block() {
+				dom = instrIndex(st) < instrIndex(at)
+			} else {
+				dom = st.Block().Dominates(at.Block())
+			}
+			if !dom {
+				continue
+			}
+			bv, isB := tb.Term(ctx, st.Val).IntConst()
+			if !isB {
+				continue
+			}
+			ps := keyParts(t)
+			if len(ps) == 0 {
+				continue
+			}
+			if lead, okc := ps[0].BytesConst(); okc && int(idx) < len(lead) {
+				nb := []byte(lead)
+				nb[idx] = byte(bv)
+				t = tb.cat(append([]*Term{tb.constBytes(string(nb))}, ps[1:]...)...)
+			}
+		}
+	}
+	return t
 }
